@@ -63,15 +63,44 @@ Fixpoint mask_ok (raw : bytes) (i : nat) (m : string) : bool :=
     Bool.eqb (match dec_pvtx (firstn i raw) with Some _ => true | None => false end) (Ascii.eqb c "1"%char) && mask_ok raw (S i) r
   end.
 Definition reads_as (p : pvtx) (b : bytes) : bool := match dec_pvtx b with Some q => pvtx_eqb q p | None => false end.
-Definition pcase_ok (v : mvtx) (pb : option (list seg * list seg * string)) : bool :=
+(* edits of the real bytes with what proto.Unmarshal made of them: refused, or (length, FNV-1a 64) of the canonical bytes of the message read *)
+Inductive expect := NOEX | EX (len digest : N).
+Inductive mutant := MU (pos del : N) (ins : string) (ex : expect).
+Definition fnv1a (b : bytes) : N :=
+  fold_left (fun h x => (N.lxor h x * 1099511628211) mod 18446744073709551616)%N b 14695981039346656037%N.
+Definition mut_ok (raw : bytes) (m : mutant) : bool :=
+  let '(MU pos del ins ex) := m in
+  let b := firstn (N.to_nat pos) raw ++ hex_bytes ins ++ skipn (N.to_nat (pos + del)) raw in
+  match dec_pvtx b, ex with
+  | None, NOEX => true
+  | Some p, EX l h => let e := enc_pvtx p in N.eqb (nlen e) l && N.eqb (fnv1a e) h
+  | _, _ => false
+  end.
+(* the gossip envelopes (VrxMsgGossip / TrxMsgGossip) around the vertex / its transaction with a gossiper list *)
+Inductive gwrap := GW (gs : list pgos) (vmsg tmsg : list seg).
+Definition GS (a d s : list seg) : pgos := PGos (sb a) (sb d) (sb s).
+Definition pgos_eqb (a b : pgos) : bool :=
+  bytes_eqb (pg_address a) (pg_address b) && bytes_eqb (pg_digest a) (pg_digest b) && bytes_eqb (pg_sig a) (pg_sig b).
+Fixpoint list_eqb {A} (e : A -> A -> bool) (a b : list A) : bool :=
+  match a, b with [], [] => true | x :: a', y :: b' => e x y && list_eqb e a' b' | _, _ => false end.
+Definition wrap_ok (p : pvtx) (w : gwrap) : bool :=
+  let '(GW gs vm tm) := w in
+  bytes_eqb (enc_pvmsg (PVMsg (Some p) gs)) (sb vm) &&
+  match dec_pvmsg (sb vm) with Some m => opt_eqb pvtx_eqb (pm_vertex m) (Some p) && list_eqb pgos_eqb (pm_gossipers m) gs | None => false end &&
+  bytes_eqb (enc_ptmsg (PTMsg (pv_trx p) gs)) (sb tm) &&
+  match dec_ptmsg (sb tm) with Some m => opt_eqb ptrx_eqb (pq_trx m) (pv_trx p) && list_eqb pgos_eqb (pq_gossipers m) gs | None => false end.
+(* the model marshals exactly when the library does: a vertex with a non-UTF-8 string has no wire form (pb = None) *)
+Definition pcase_ok (v : mvtx) (pb : option (list seg * list seg * string * list mutant * list gwrap)) : bool :=
   match pb with
   | None => true
-  | Some (raw, alt, mask) =>
+  | Some (raw, alt, mask, muts, wraps) =>
     let r := sb raw in let p := to_pvtx v in
-    bytes_eqb (enc_pvtx p) r && reads_as p r && reads_as p (sb alt) && mask_ok r 0 mask
+    match marshal_pvtx p with Some e => bytes_eqb e r | None => false end &&
+    reads_as p r && reads_as p (sb alt) && mask_ok r 0 mask && forallb (mut_ok r) muts && forallb (wrap_ok p) wraps
   end.
+Definition refused_ok (v : mvtx) : bool := match marshal_pvtx (to_pvtx v) with None => true | Some _ => false end.
 
-Definition mpcase : Type := mvtx * list seg * list seg * option (list seg * list seg * string).
+Definition mpcase : Type := mvtx * list seg * list seg * option (list seg * list seg * string * list mutant * list gwrap).
 (* a case: the vertex, the bytes of Vertex.encode, the bytes of Transaction.Encode, and the protobuf part *)
 Definition vcase_ok (c : mpcase) : bool :=
   let '(v, vb, tb, pb) := c in
@@ -84,4 +113,9 @@ Definition bad_msgpack (base : nat) (cases : list mpcase) : list nat :=
   map fst (filter (fun p => negb (vcase_ok (snd p))) (combine (seq base (List.length cases)) cases)).
 (* constructors with typed arguments, so that the generated file needs no scope delimiters *)
 Definition MC (v : mvtx) (vb tb : list seg) : mpcase := (v, vb, tb, None).
-Definition MCP (v : mvtx) (vb tb raw alt : list seg) (mask : string) : mpcase := (v, vb, tb, Some (raw, alt, mask)).
+Definition MCP (v : mvtx) (vb tb raw alt : list seg) (mask : string) (muts : list mutant) (wraps : list gwrap) : mpcase :=
+  (v, vb, tb, Some (raw, alt, mask, muts, wraps)).
+(* vertices proto.Marshal refused (invalid UTF-8 in a string field): the model must refuse them too *)
+Definition bad_refused (base : nat) (cases : list mvtx) : list nat :=
+  map fst (filter (fun p => negb (refused_ok (snd p))) (combine (seq base (List.length cases)) cases)).
+
